@@ -17,19 +17,29 @@ theorem noninterference (M ttl : Nat) (evs : List Ev) (κ : Key) (hm : Mono 0 ev
       runEvs (Handler.new M ttl) (evs.filter (fun e => e.key = κ)) :=
   Block.noninterference M ttl evs κ hm
 
-/-- transfers are keyed by (method code, path segment list, endpoint): two
-requests share state iff all three agree … -/
+/-- transfers are keyed by (code byte, raw Uri-Path segment list, endpoint): two requests share
+state iff all three agree (after the D17 fix the segments are compared as the bytes on the wire,
+so undecodable segments and unnamed request codes are told apart too) … -/
 theorem key_eq_iff (r₁ r₂ : Request) :
     keyOf r₁ = keyOf r₂ ↔
-      (MessageClass.toU8 (.Request r₁.getMethod) = MessageClass.toU8 (.Request r₂.getMethod) ∧
-       (match r₁.getPathAsVec with | .ok l => l | _ => []) =
-         (match r₂.getPathAsVec with | .ok l => l | _ => []) ∧
+      (MessageClass.toU8 r₁.message.header.code = MessageClass.toU8 r₂.message.header.code ∧
+       (r₁.message.getOption Request.uriPath).getD [] = (r₂.message.getOption Request.uriPath).getD [] ∧
        r₁.source = r₂.source) :=
   keyOf_eq_iff r₁ r₂
 
+/-- … and the code byte determines the code (`MessageClass ↔ u8` is a bijection on the values the
+decoder produces), so different methods are different keys -/
+theorem key_method (c₁ c₂ : Nat)
+    (h : MessageClass.toU8 (MessageClass.ofU8 c₁) = MessageClass.toU8 (MessageClass.ofU8 c₂)) : c₁ = c₂ := by
+  have e1 : MessageClass.toU8 (MessageClass.ofU8 c₁) = c₁ := by
+    unfold MessageClass.ofU8; split <;> simp [MessageClass.toU8]
+  have e2 : MessageClass.toU8 (MessageClass.ofU8 c₂) = c₂ := by
+    unfold MessageClass.ofU8; split <;> simp [MessageClass.toU8]
+  omega
+
 /-- … so paths that differ only in segmentation (["a","b"] vs ["a/b"]) or are
 prefixes of one another are different keys -/
-example : (["a", "b"] : List String) ≠ ["a/b"] ∧ (["a"] : List String) ≠ ["a", "b"] := by decide
+example : ([[97], [98]] : List Bytes) ≠ [[97, 47, 98]] ∧ ([[97]] : List Bytes) ≠ [[97], [98]] := by decide
 
 /-- every reply the handler produces or rewrites – including blocks served from
 its cache – keeps the message id and token of the reply prepared for the request
